@@ -67,6 +67,10 @@ type Knobs struct {
 	StdinChunk     int    `json:"stdin_chunk,omitempty"` // 0 = as much as fits; >0 fixed; <0 random 1..-n
 	FileChunk      int    `json:"file_chunk,omitempty"`  // same for regular-file reads
 	ShuffleReaddir bool   `json:"shuffle_readdir,omitempty"`
+	// MaxOpenFiles is the descriptor limit of the simulated process (RLIMIT_NOFILE
+	// minus the three streams); 0 = unlimited. open fails with EMFILE when that
+	// many handles are open and not yet closed.
+	MaxOpenFiles int `json:"max_open_files,omitempty"`
 }
 
 // Spec is the explicit, serialisable description of a world. It is what a
